@@ -47,6 +47,16 @@
 #else
 #define VM_REALLOC_CLASSES X(struct data_elem, 1) X(struct data_elem, 2) X(struct data_elem, 3) X(struct data_elem, 4)
 #endif
+#ifndef VM_EXACT
+#define VM_CAP_MODE
+#ifdef TL_WITH_REASONS
+#define VM_REALLOC_TYPE struct pfx_record
+#define VM_REALLOC_CAP ((TD + 2) * (TE + 1))
+#else
+#define VM_REALLOC_TYPE struct data_elem
+#define VM_REALLOC_CAP (TE + 2)
+#endif
+#endif
 #include "alloc_model.h"
 #include "rwlock_model.h"
 
